@@ -169,6 +169,22 @@ func isNilCheck(c ssa.Value, v ssa.Value) (nonNilWhenTrue bool, ok bool) {
 	if (b.X == v && isNil(b.Y)) || (b.Y == v && isNil(b.X)) {
 		return b.Op == token.NEQ, true
 	}
+	// v parked in a local cell (a named result, a captured variable) and tested through a load of that cell
+	holds := func(x ssa.Value) bool {
+		u, ok := x.(*ssa.UnOp)
+		if !ok || u.Op != token.MUL {
+			return false
+		}
+		a, ok := u.X.(*ssa.Alloc)
+		if !ok {
+			return false
+		}
+		vals, entry := reachingStores(u, a)
+		return !entry && len(vals) == 1 && vals[0] == v
+	}
+	if (isNil(b.Y) && holds(b.X)) || (isNil(b.X) && holds(b.Y)) {
+		return b.Op == token.NEQ, true
+	}
 	return false, false
 }
 
